@@ -20,7 +20,7 @@ use crate::{
     },
     socket::{Socket, UdpSocket},
     utils::{maybe_gather, retry_on_timeout, u8_lower_upper},
-    GDErrorKind::{BadGame, Decompress, UnknownEnumCast},
+    GDErrorKind::{BadGame, Decompress, PacketBad, UnknownEnumCast},
     GDResult,
 };
 
@@ -146,19 +146,30 @@ impl ValveProtocol {
         buffer.move_cursor(-1)?;
         if header == 0xFE {
             // the packet is split
-            let mut main_packet = SplitPacket::new(engine, protocol, &mut buffer)?;
-            let mut chunk_packets = Vec::with_capacity(main_packet.total.saturating_sub(1) as usize);
+            let first_packet = SplitPacket::new(engine, protocol, &mut buffer)?;
+            let total = first_packet.total;
+            let mut packets = Vec::with_capacity(total.max(1) as usize);
+            packets.push(first_packet);
 
-            for _ in 1 .. main_packet.total {
+            for _ in 1 .. total {
                 let new_data = self.socket.receive(Some(buffer_size))?;
                 buffer = Buffer::<LittleEndian>::new(&new_data);
                 let chunk_packet = SplitPacket::new(engine, protocol, &mut buffer)?;
-                chunk_packets.push(chunk_packet);
+                packets.push(chunk_packet);
             }
 
-            chunk_packets.sort_by(|a, b| a.number.cmp(&b.number));
+            // Datagrams can arrive in any order (the first one received is not necessarily
+            // the one numbered 0) and can be duplicated.
+            packets.sort_by(|a, b| a.number.cmp(&b.number));
+            if packets.windows(2).any(|pair| pair[0].number == pair[1].number) {
+                return Err(PacketBad.context("Duplicated split packet"));
+            }
 
-            for chunk_packet in chunk_packets {
+            let mut packets = packets.into_iter();
+            let mut main_packet = packets
+                .next()
+                .ok_or_else(|| PacketBad.context("No split packet"))?;
+            for chunk_packet in packets {
                 main_packet.payload.extend(chunk_packet.payload);
             }
 
